@@ -538,6 +538,10 @@ func c20GenSection(r *vRand, sec int) c20SecRaw {
 	s.text = c20Marshal(top)
 	if r.Chance(3, 20) { // malformed stream: the section must keep its previously effective settings
 		s.state = 1
+		if r.Chance(2, 5) { // not ONE JSON value, but the text STARTS with a complete one (a lenient stream decoder would apply it)
+			s.text = c20PrefixValidMalformed(r, s.text)
+			return s
+		}
 		switch r.Intn(6) {
 		case 0:
 			s.text = s.text[:len(s.text)-1-r.Intn(len(s.text)/2+1)]
@@ -577,8 +581,48 @@ func c20GenSection(r *vRand, sec int) c20SecRaw {
 			top[key] = append(append([]interface{}{}, nodes...), bad)
 			s.text = c20Marshal(top)
 		}
+	} else if r.Chance(1, 8) { // surrounding JSON whitespace: still exactly one JSON value, must be APPLIED
+		s.text = []string{" ", "\n", "\t \r\n"}[r.Intn(3)] + s.text + []string{" ", "\n", " \r\n\t"}[r.Intn(3)]
 	}
 	return s
+}
+
+// c20PrefixValidMalformed: a text that is not exactly one JSON value although its PREFIX `valid` (or `{}` / `null`) is a
+// complete JSON value: one closing brace too many, two pasted documents, a leading `{}`, trailing junk, a byte-order mark.
+func c20PrefixValidMalformed(r *vRand, valid string) string {
+	switch r.Intn(9) {
+	case 0:
+		return valid + "}"
+	case 1:
+		return valid + valid
+	case 2:
+		return "{}" + valid
+	case 3:
+		return valid + " \n junk"
+	case 4:
+		return "null" + []string{"x", " " + valid, "}"}[r.Intn(3)]
+	case 5:
+		return valid + "\n" + `{"clusterStrategy":null}`
+	case 6:
+		return valid + []string{",", "]", "0", "\"\"", "\x00"}[r.Intn(5)]
+	case 7:
+		return " " + valid + " }"
+	default:
+		return "\ufeff" + valid // byte-order mark: not JSON whitespace
+	}
+}
+
+// c20StrictValid is the oracle's own reading of "the section can be parsed": the WHOLE text is exactly one JSON value
+// (optionally surrounded by JSON whitespace) - decided on the text alone, never from what the code under test accepted.
+func c20StrictValid(text string) bool { return json.Valid([]byte(text)) }
+
+// c20ValidPrefix: the text is NOT one JSON value, but it starts with one (what a stream decoder would take and apply).
+func c20ValidPrefix(text string) bool {
+	if c20StrictValid(text) {
+		return false
+	}
+	var v interface{}
+	return json.NewDecoder(strings.NewReader(text)).Decode(&v) == nil
 }
 
 // ---------------------------------------------------------------- oracle helpers (raw trees, path by path)
@@ -861,11 +905,11 @@ func TestVerifC20(t *testing.T) {
 				}
 				// ---- ops: what the repo's own config types + encoding/json read from each section text
 				for s := 0; s < 5; s++ {
-					c20EmitSection(h, s, cur[s], fail)
-					switch cur[s].state {
-					case 0:
+					// 'parsable' is decided by the strict reading of the text (exactly one JSON value), not by the code under test
+					switch st := c20EmitSection(h, s, cur[s], fail); {
+					case st == 0:
 						good[s] = c20Good{absent: true}
-					case 2:
+					case st == 2 && cur[s].state == 2:
 						good[s] = c20Good{sec: cur[s]}
 					default:
 						malformedNow[s] = true
@@ -939,8 +983,12 @@ func TestVerifC20(t *testing.T) {
 					if malformedNow[s] && pre != nil && pre[pr] != nil && !c20LayerEq(obs, pre[pr][s]) {
 						secBroken[s] = true
 						d := c20Diffs(obs, pre[pr][s])[0]
-						fail("C20:malformed-not-kept:"+c20SecNames[s], "unparsable section did not keep the previously effective settings: section %s field %s: %s [expected = before the event] (event %d, labels %v)",
-							c20SecNames[s], c20PathNames(d.p), d.what, ev, node.Labels)
+						fp, why := "C20:malformed-not-kept:", "unparsable section"
+						if c20ValidPrefix(cur[s].text) {
+							fp, why = "C20:malformed-section-applied:", fmt.Sprintf("section text %q is not one JSON value (only its prefix is) and", cur[s].text)
+						}
+						fail(fp+c20SecNames[s], "%s did not keep the previously effective settings: section %s field %s: %s [expected = before the event] (event %d, labels %v)",
+							why, c20SecNames[s], c20PathNames(d.p), d.what, ev, node.Labels)
 						continue
 					}
 					g := good[s]
@@ -1140,10 +1188,16 @@ func c20DropZeroTnb(fl []c20Entry) []c20Entry {
 
 // c20EmitSection parses the section text with the repo's own config type (encoding/json only, none of
 // the merge code) and emits it as ops; cross-checks the generator's intent (parsable or not).
-func c20EmitSection(h *vHarness, s int, raw c20SecRaw, fail func(string, string, ...interface{})) {
+// Returns the section's state by the STRICT reading (0 absent, 1 not parsable, 2 parsable): the whole text must be exactly
+// one JSON value (c20StrictValid) that the section's config type accepts.
+func c20EmitSection(h *vHarness, s int, raw c20SecRaw, fail func(string, string, ...interface{})) int {
 	if raw.state == 0 {
 		h.Op("sec %d 0 0", s)
-		return
+		return 0
+	}
+	strict := c20StrictValid(raw.text)
+	if c20ValidPrefix(raw.text) {
+		h.Tag("malformed:valid-prefix")
 	}
 	type nodeOut struct {
 		has bool
@@ -1228,17 +1282,21 @@ func c20EmitSection(h *vHarness, s int, raw c20SecRaw, fail func(string, string,
 			}
 		}
 	}
+	if !strict && err == nil {
+		fail("C20:json-glue-assumption", "section %s text %q is not exactly one JSON value but json.Unmarshal accepted it", c20SecNames[s], raw.text)
+		err = fmt.Errorf("not exactly one JSON value")
+	}
 	if (err != nil) != (raw.state == 1) {
 		fail("C20:json-glue-assumption", "section %s text %q: generator intent state=%d but encoding/json says err=%v", c20SecNames[s], raw.text, raw.state, err)
 	}
 	if err != nil {
 		h.Op("sec %d 1 0", s)
-		return
+		return 1
 	}
 	if raw.state == 2 && len(nodes) != len(raw.nodes) {
 		fail("C20:json-glue-assumption", "section %s: %d node entries parsed, %d generated", c20SecNames[s], len(nodes), len(raw.nodes))
 		h.Op("sec %d 1 0", s)
-		return
+		return 1
 	}
 	// the statement's "sets the field" (c20Norm on the raw tree) must be what the repo's types + encoding/json
 	// read from the text, layer by layer (also for entries that never get selected)
@@ -1298,4 +1356,5 @@ func c20EmitSection(h *vHarness, s int, raw c20SecRaw, fail func(string, string,
 		}
 		h.Tag(fmt.Sprintf("sel:%s", []string{"nil", "invalid", "reqs"}[sel.kind]))
 	}
+	return 2
 }
